@@ -44,7 +44,7 @@ def _burst_soft(rng, n, kind):
 
 def fn_value(rng):
     if rng.chance(1, 3):
-        return rng.choice([0, 1, 255, 256, 65535, 65536, 16777215, H - 2, H - 1, 1326, 84864])
+        return rng.choice([0, 1, 255, 256, 65535, 65536, 2097151, 2097152, H - 2, H - 1, 1326, 84864])
     return rng.below(H)
 
 
